@@ -11,10 +11,13 @@ Files are rewritten only when their content changes (temp file + rename).  Anyth
 understand makes it exit non-zero with a message: it never guesses.
 
 What is translated (see macros.rs for the expansion that FeatherModel/Model/RawLayout.lean interprets):
-  struct N [this] { (const c: p = expr, | mut f: T [; Some(&f)],)* }
+  struct N [this] { (const c: p = expr, | mut f: T [; Some(&f)],)* }     expr may contain pool_slots(&this.f), f: Vec<CpInfo>
   enum N [[pool]] { tag: p, ( V [this] { = wexpr => pat [if pool_has_utf8(pool, tag, b"..")?], (const.. | mut f: T [nowrite = rexpr],)* }, )*
                     [ _ { x => Err(..), }, ] }
   T ::= u8|u16|u32 | Name | Vec<E> [p] | Vec<E> {rexpr} | Vec<E> [p] {rexpr} (rejected: ambiguous in the macro)
+      | Vec<CpInfo> {rexpr; slots}   items are read until their `.slots()` add up to rexpr (error when the last one ends past it)
+Hand-written glue: `impl CpInfo { fn slots }` is *parsed* (which variants take two slots -> `wideVariants`); `pool_slots`,
+`pool_get`, `pool_has_utf8` and `impl ClassFile` must have exactly the text the model was written against.
 Expression typing: Rust arithmetic is done in the type of the operands (usize for `.len()`, u32 for `this._len()`,
 the field's type for fields, the binding's type on the read side); the harness is built with overflow checks, so
 the width is recorded (`bits`) and the Lean evaluator treats overflow / underflow as a panic; `as` casts truncate.
@@ -186,7 +189,7 @@ def parse_bstr(s, line):
     return [ord(c) for c in inner]
 
 
-# expressions: ('lit', n, suffix|None, single_token) | ('var', x) | ('len', x) | ('thislen',) | ('add'|'sub'|'mul', a, b)
+# expressions: ('lit', n, suffix|None, single_token) | ('var', x) | ('len', x) | ('slots', x) | ('thislen',) | ('add'|'sub'|'mul', a, b)
 
 def parse_expr(p, this_alias, in_struct):
     def atom():
@@ -210,6 +213,17 @@ def parse_expr(p, this_alias, in_struct):
             if p.at("."):
                 die("`*x.y` is not understood", l)
             return ("var", x)
+        if k == "id" and s == "pool_slots":
+            # exactly  pool_slots(&this.<field>)  : the sum of `.slots()` over a Vec<CpInfo> field
+            p.next()
+            p.expect("("); p.expect("&")
+            a = p.ident()
+            if this_alias is None or a != this_alias or not in_struct:
+                die("`pool_slots(&%s..)`: only `pool_slots(&<this alias>.<field>)` in a struct is understood" % a, l)
+            p.expect(".")
+            y = p.ident()
+            p.expect(")")
+            return ("slots", y)
         if k == "id":
             p.next()
             x = s
@@ -279,8 +293,14 @@ def operand_types(e, scope, side, line):
     if k == "len":
         if side != "w":
             die("`.len()` in a read-side expression is not understood", line)
-        if scope.get(e[1]) != ("vec",):
+        if scope.get(e[1], ("none",))[0] != "vec":
             die("`.len()` of `%s`, which is not a Vec field in scope" % e[1], line)
+        return {"usize"}
+    if k == "slots":
+        if side != "w":
+            die("`pool_slots(..)` in a read-side expression is not understood", line)
+        if scope.get(e[1]) != ("vec", ("ref", "CpInfo")):
+            die("`pool_slots` of `%s`, which is not a Vec<CpInfo> field in scope" % e[1], line)
         return {"usize"}
     if k == "var":
         t = scope.get(e[1])
@@ -340,7 +360,7 @@ def typed_expr(e, scope, side, target, line):
 
 
 def parse_type(p):
-    """-> ('prim',p) | ('ref',name) | ('vec', elem_ty, cnt|None, len_expr_tokens_parser_pos|None)"""
+    """-> ('prim',p) | ('ref',name) | ('vec', elem_ty, cnt|None, len_expr|None, counts_slots)"""
     l = p.line()
     name = p.ident()
     if name == "Vec":
@@ -352,15 +372,24 @@ def parse_type(p):
             cnt = p.prim()
             p.expect("]")
         lenexpr = None
+        slots = False
         if p.eat("{"):
             lenexpr = parse_expr(p, None, False)
+            if p.eat(";"):
+                # the only marker the macro has a read rule for
+                m = p.ident()
+                if m != "slots":
+                    die("length marker `; %s` is not understood (only `; slots`)" % m, l)
+                slots = True
             p.expect("}")
         if cnt is not None and lenexpr is not None:
             die("Vec with both [count type] and {length}: the macro would define `len` twice; not understood", l)
         if cnt is None and lenexpr is None:
             die("Vec without [count type] and without {length}", l)
         elty = ("prim", el) if el in PRIMS else ("ref", el)
-        return ("vec", elty, cnt, lenexpr)
+        if slots and elty != ("ref", "CpInfo"):
+            die("`{..; slots}` on a Vec<%s>: `.slots()` is only known for CpInfo" % el, l)
+        return ("vec", elty, cnt, lenexpr, slots)
     if p.at("<") or p.at("[") or p.at("{"):
         die("type parameters on `%s` are not understood" % name, l)
     return ("prim", name) if name in PRIMS else ("ref", name)
@@ -419,7 +448,7 @@ def parse_body_items(p, this_alias, in_struct, head_binds):
     for it in raw:
         if it[0] == "mut":
             ty = it[2]
-            wscope[it[1]] = ("prim", ty[1]) if ty[0] == "prim" else ("vec",) if ty[0] == "vec" else ("other",)
+            wscope[it[1]] = ("prim", ty[1]) if ty[0] == "prim" else ("vec", ty[1]) if ty[0] == "vec" else ("other",)
     names_seen = set()
     for it in raw:
         if it[0] == "const":
@@ -449,9 +478,9 @@ def parse_body_items(p, this_alias, in_struct, head_binds):
             else:
                 f["kind"] = "field"
                 if ty[0] == "vec":
-                    _, elty, cnt, lenexpr = ty
+                    _, elty, cnt, lenexpr, slots = ty
                     if lenexpr is not None:
-                        f["ty"] = ("veclen", typed_expr(lenexpr, rscope, "r", None, l), elty)
+                        f["ty"] = ("vecslots" if slots else "veclen", typed_expr(lenexpr, rscope, "r", None, l), elty)
                     else:
                         f["ty"] = ("veccnt", cnt, elty)
                 else:
@@ -602,9 +631,14 @@ def parse_block(text, line0):
 
 # the hand-written glue of lib.rs the model relies on (whitespace-normalised); a change there needs a look at the model
 EXPECTED_GLUE = {
+    "pool_slots": "fn pool_slots(pool: &[CpInfo]) -> usize { pool.iter().map(CpInfo::slots).sum() }",
+    "pool_get": "fn pool_get(pool: &[CpInfo], index: u16) -> Option<&CpInfo> { "
+                "let mut entry_index = 1; "
+                "for entry in pool { if entry_index == index as usize { return Some(entry); } entry_index += entry.slots(); } "
+                "None }",
     "pool_has_utf8": "fn pool_has_utf8(pool: Option<&Vec<CpInfo>>, index: u16, value: &[u8]) -> Result<bool, std::io::Error> { "
                      "let Some(pool) = pool else { return Err(std::io::Error::other(\"expected to have constant pool at this point of reading\")); }; "
-                     "let Some(entry) = pool.get((index - 1) as usize) else { return Err(std::io::Error::other(format!(\"no constant pool entry at position {}\", index))); }; "
+                     "let Some(entry) = pool_get(pool, index) else { return Err(std::io::Error::other(format!(\"no constant pool entry at position {}\", index))); }; "
                      "let CpInfo::Utf8 { bytes } = entry else { return Err(std::io::Error::other(format!(\"expected constant pool entry `Utf8` at position {}, got {:?}\", index, entry))); }; "
                      "Ok(bytes.as_slice() == value) }",
     "impl ClassFile": "impl ClassFile { "
@@ -613,39 +647,79 @@ EXPECTED_GLUE = {
                       "pub fn read(reader: &mut impl std::io::Read) -> std::io::Result<ClassFile> { ClassFile::_read(reader, None) } "
                       "pub fn length(&self) -> usize { self._len() as usize } }",
 }
+GLUE_START = {"pool_slots": r"^fn pool_slots\(", "pool_get": r"^fn pool_get\(", "pool_has_utf8": r"^fn pool_has_utf8\(",
+              "impl ClassFile": r"^impl ClassFile \{"}
+
+
+def glue_item(src, start_re):
+    """the item starting at the line matching start_re, up to its closing brace, comments dropped, whitespace normalised"""
+    def norm(s):
+        s = re.sub(r"//[^\n]*", "", s)
+        return re.sub(r"\s+", " ", s).strip()
+    m = re.search(start_re, src, flags=re.M)
+    if not m:
+        die("glue item %s not found" % start_re)
+    i = src.index("{", m.start())
+    depth = 0
+    j = i
+    while True:
+        if src[j] == "{":
+            depth += 1
+        elif src[j] == "}":
+            depth -= 1
+            if depth == 0:
+                break
+        j += 1
+    return norm(src[m.start():j + 1])
+
+
+def parse_slots(src):
+    """`impl CpInfo { fn slots(&self) -> usize { match self { (CpInfo::V { .. } [| ..] => 1|2,)* _ => 1, } } }`
+    -> set of variant names that take two slots.  This is *data* of the model (RawLayout.Env.wide), not fixed text:
+    the model follows whatever table the code holds, and the JVMS comparison (Thm.C20.layouts_jvms) judges it."""
+    text = glue_item(src, r"^impl CpInfo \{")
+    m = re.fullmatch(r"impl CpInfo \{ fn slots\(&self\) -> usize \{ match self \{ (.*) \} \} \}", text)
+    if not m:
+        die("`impl CpInfo` is not `impl CpInfo { fn slots(&self) -> usize { match self { .. } } }`:\n  found: %s" % text)
+    arms = [a.strip() for a in m.group(1).split(",")]
+    if arms and arms[-1] == "":
+        arms.pop()
+    if not arms or arms[-1] != "_ => 1":
+        die("CpInfo::slots: the last arm is not `_ => 1` (found `%s`)" % (arms[-1] if arms else ""))
+    wide, seen = set(), set()
+    for a in arms[:-1]:
+        mm = re.fullmatch(r"((?:CpInfo::[A-Za-z0-9_]+ \{ \.\. \}(?: \| )?)+) => ([0-9]+)", a)
+        if not mm:
+            die("CpInfo::slots: arm `%s` is not understood" % a)
+        n = int(mm.group(2))
+        if n not in (1, 2):
+            die("CpInfo::slots: an entry taking %d slots is not modelled (only 1 and 2)" % n)
+        for v in re.findall(r"CpInfo::([A-Za-z0-9_]+) \{ \.\. \}", mm.group(1)):
+            if v in seen:
+                die("CpInfo::slots: variant `%s` occurs in two arms" % v)
+            seen.add(v)
+            if n == 2:
+                wide.add(v)
+    return wide
 
 
 def check_glue(src):
     def norm(s):
-        s = re.sub(r"//[^\n]*", "", s)
         return re.sub(r"\s+", " ", s).strip()
-    def item(start_re):
-        m = re.search(start_re, src, flags=re.M)
-        if not m:
-            die("glue item %s not found" % start_re)
-        i = src.index("{", m.start())
-        depth = 0
-        j = i
-        while True:
-            if src[j] == "{":
-                depth += 1
-            elif src[j] == "}":
-                depth -= 1
-                if depth == 0:
-                    break
-            j += 1
-        return norm(src[m.start():j + 1])
-    got = {"pool_has_utf8": item(r"^fn pool_has_utf8\("), "impl ClassFile": item(r"^impl ClassFile \{")}
+    got = {k: glue_item(src, r) for k, r in GLUE_START.items()}
     for k, want in EXPECTED_GLUE.items():
         if got[k] != norm(want):
             die("hand-written item `%s` of lib.rs differs from the text the model was written against:\n  found   : %s\n  expected: %s"
                 % (k, got[k], norm(want)))
-    if len(re.findall(r"(?m)^impl\s", src)) != 1:
-        die("additional `impl` blocks in lib.rs are not understood")
+    if len(re.findall(r"(?m)^impl\s", src)) != 2:
+        die("`impl` blocks other than `impl ClassFile` and `impl CpInfo` in lib.rs are not understood")
+    if len(re.findall(r"(?m)^(?:pub(?:\([a-z]+\))? )?fn\s", src)) != 3:
+        die("free functions other than pool_slots, pool_get, pool_has_utf8 in lib.rs are not understood")
 
 
 def translate(src):
     check_glue(src)
+    wide = parse_slots(src)
     defs = [parse_block(text, line) for line, text in find_blocks(src)]
     names = {}
     for d in defs:
@@ -672,10 +746,19 @@ def translate(src):
         die("enum CpInfo with variant Utf8 not found (needed by pool_has_utf8)")
     utf8 = [v for v in names["CpInfo"]["variants"] if v["name"] == "Utf8"][0]
     fs = utf8["body"]["fields"]
-    if not (len(fs) == 1 and fs[0]["kind"] == "field" and fs[0]["ty"][0] in ("veccnt", "veclen") and fs[0]["ty"][2] == ("prim", "u8") and fs[0]["name"] == "bytes"):
+    if not (len(fs) == 1 and fs[0]["kind"] == "field" and fs[0]["ty"][0] in ("veccnt", "veclen", "vecslots") and fs[0]["ty"][2] == ("prim", "u8") and fs[0]["name"] == "bytes"):
         die("CpInfo::Utf8 is not { bytes: Vec<u8> }")
+    cpnames = [v["name"] for v in names["CpInfo"]["variants"]]
+    for w in sorted(wide):
+        if w not in cpnames:
+            die("CpInfo::slots names the variant `%s`, which CpInfo does not have" % w)
+    global WIDE
+    WIDE = [i for i, n in enumerate(cpnames) if n in wide]
     return defs
 
+
+# indices of the variants of CpInfo that take two constant-pool slots (from `CpInfo::slots`), set by translate()
+WIDE = []
 
 # ------------------------------------------------------------------ name table
 
@@ -701,6 +784,8 @@ def lean_expr(e, nm):
         return "(.var %d)" % nm.id(e[1])
     if k == "len":
         return "(.lenOf %d)" % nm.id(e[1])
+    if k == "slots":
+        return "(.slotsOf %d %s)" % (nm.id(e[1]), WIDE)
     if k == "thislen":
         return ".thisLen"
     return "(.%s %s %s)" % (k, lean_expr(e[1], nm), lean_expr(e[2], nm))
@@ -720,6 +805,8 @@ def lean_ty(ty, tyid, nm):
         return "(.vecCnt .%s %s)" % (ty[1], lean_ty(ty[2], tyid, nm))
     if k == "veclen":
         return "(.vecLen %s %s)" % (lean_texpr(ty[1], nm), lean_ty(ty[2], tyid, nm))
+    if k == "vecslots":
+        return "(.vecSlots %s %s %s)" % (lean_texpr(ty[1], nm), WIDE, lean_ty(ty[2], tyid, nm))
     raise AssertionError(k)
 
 
@@ -788,8 +875,10 @@ def classFileId : Nat := %d
 /-- index of `CpInfo` and of its variant `Utf8` (what `pool_has_utf8` looks for) -/
 def cpInfoId : Nat := %d
 def utf8Variant : Nat := %d
+/-- variants of `CpInfo` for which `CpInfo::slots` answers 2 (every other one: 1) -/
+def wideVariants : List Nat := %s
 /-- the layout environment interpreted by `FeatherModel.Model.RawLayout` -/
-def env : Env := ⟨defs, utf8Variant⟩
+def env : Env := ⟨defs, utf8Variant, wideVariants⟩
 /-- index of `AttributeInfo` -/
 def attributeInfoId : Nat := %d
 %s
@@ -805,7 +894,7 @@ def nameCodes : List (List Nat) := [
 ]
 
 end Gen.RawLayouts
-""" % (",\n".join(out), tyid["ClassFile"], tyid["CpInfo"], utf8_idx, tyid.get("AttributeInfo", 0), "\n".join(special),
+""" % (",\n".join(out), tyid["ClassFile"], tyid["CpInfo"], utf8_idx, WIDE, tyid.get("AttributeInfo", 0), "\n".join(special),
        ",\n".join("  " + ", ".join('"%s"' % s for s in nm.list[i:i + 6]) for i in range(0, len(nm.list), 6)),
        ",\n".join("  [%s]" % ", ".join(str(ord(ch)) for ch in s) for s in nm.list))
     return text
@@ -821,6 +910,8 @@ def rust_expr(e):
         return 'E::Var("%s")' % e[1]
     if k == "len":
         return 'E::LenOf("%s")' % e[1]
+    if k == "slots":
+        return 'E::SlotsOf("%s", WIDE_VARIANTS)' % e[1]
     if k == "thislen":
         return "E::ThisLen"
     return "E::%s(&%s, &%s)" % (k.capitalize(), rust_expr(e[1]), rust_expr(e[2]))
@@ -838,6 +929,8 @@ def rust_ty(ty, tyid):
         return "Ty::Ref(%d)" % tyid[ty[1]]
     if k == "veccnt":
         return "Ty::VecCnt(%d, &%s)" % (PRIMS[ty[1]] // 8, rust_ty(ty[2], tyid))
+    if k == "vecslots":
+        return "Ty::VecSlots(%s, WIDE_VARIANTS, &%s)" % (rust_texpr(ty[1]), rust_ty(ty[2], tyid))
     return "Ty::VecLen(%s, &%s)" % (rust_texpr(ty[1]), rust_ty(ty[2], tyid))
 
 
@@ -935,6 +1028,8 @@ pub use crate::rawval::*;
 pub const CLASS_FILE_ID: usize = %d;
 pub const CP_INFO_ID: usize = %d;
 pub const UTF8_VARIANT: usize = %d;
+/// variants of CpInfo for which `CpInfo::slots` answers 2
+pub const WIDE_VARIANTS: &[usize] = &%s;
 pub const ATTRIBUTE_INFO_ID: usize = %d;
 
 pub static DEFS: &[DefD] = &[
@@ -942,7 +1037,7 @@ pub static DEFS: &[DefD] = &[
 ];
 
 %s
-""" % (tyid["ClassFile"], tyid["CpInfo"], utf8_idx, tyid.get("AttributeInfo", 0), "\n".join(tabs), "\n\n".join(fns))
+""" % (tyid["ClassFile"], tyid["CpInfo"], utf8_idx, WIDE, tyid.get("AttributeInfo", 0), "\n".join(tabs), "\n\n".join(fns))
 
 
 # ------------------------------------------------------------------ main
